@@ -133,6 +133,8 @@ def ens_hard(classes, ml, cm, seed, n_annot=3, **kw):
 
 @_c("annot_lr", multi=True)
 def annot_lr(classes, ml, cm, seed, n_annot=3, **kw):
+    # both documented solvers (the seed decides; SLSQP passes NaN parameters through to the probabilities)
+    kw.setdefault("solver", "SLSQP" if seed % 2 else "Newton-CG")
     return AnnotatorLogisticRegression(classes=classes, missing_label=ml, cost_matrix=cm, random_state=seed,
                                        max_iter=30, **kw)
 
